@@ -598,7 +598,10 @@ struct ERun
               if (balanced)
                 {
                   ref.sensitivity(S, tof_rows_for_sens, sref, sT);
-                  sens_ok &= check("subset_sensitivity", kase(dat, 0, "S=" + std::to_string(S)), s_impl, sref, sT, "usub=1");
+                  sens_ok &= check("subset_sensitivity", kase(dat, 0, "S=" + std::to_string(S)), s_impl, sref, sT,
+                                   // TOF data with non-TOF sensitivities, projector symmetries on and several subsets: the subsets of the sensitivity are formed
+                                   // with the view symmetries of the non-TOF back projector, those of the data terms without (TOF switches them off)
+                                   std::string("usub=1") + ((w.tof && !b.obj->use_tofsens && c.sym && c.ns > 1) ? ";nontof_sensitivity_with_view_symmetries_and_subsets=1" : ""));
                 }
             }
           else
